@@ -320,6 +320,14 @@ pub enum Op {
     /// <layers>/<name>.sbom.<format>.json is a symbolic link: 0 dangling, 1 pointing at itself,
     /// 2 to a canary file, 3 to a canary directory (left by an earlier build or by a person)
     SbomLink { layer: usize, format: usize, kind: u8 },
+    /// <layers>/<name>.toml becomes a symbolic link to a live, parseable TOML file outside the
+    /// layers directory (followed at once by a deleting request)
+    TomlLink { layer: usize, abs: bool },
+    /// in <layer>/exec.d the program `to` becomes another name of the program `from`
+    /// (symbolic link, or hard link to the same inode), as a tool that dedups files leaves it
+    ExecDAlias { layer: usize, from: String, to: String, hard: bool },
+    /// the layer directory itself gets this mode (e.g. 0555: a write-protected cache)
+    ChmodLayer { layer: usize, mode: u32 },
     /// end of build, stub lifecycle restore, start of next build
     Restore { kind: RestoreKind },
 }
@@ -343,7 +351,10 @@ impl Op {
             | Op::Implicit { layer, .. }
             | Op::SpecDir { layer, .. }
             | Op::TopSymlink { layer, .. }
-            | Op::SbomLink { layer, .. } => Some(*layer),
+            | Op::SbomLink { layer, .. }
+            | Op::TomlLink { layer, .. }
+            | Op::ExecDAlias { layer, .. }
+            | Op::ChmodLayer { layer, .. } => Some(*layer),
             Op::Restore { .. } => None,
         }
     }
@@ -367,6 +378,9 @@ impl Op {
             Op::SpecDir { .. } => "SpecDir",
             Op::TopSymlink { .. } => "TopSymlink",
             Op::SbomLink { .. } => "SbomLink",
+            Op::TomlLink { .. } => "TomlLink",
+            Op::ExecDAlias { .. } => "ExecDAlias",
+            Op::ChmodLayer { .. } => "ChmodLayer",
             Op::Restore { .. } => "Restore",
         }
     }
